@@ -9,6 +9,13 @@ import os
 import sys
 
 HINT = {
+  'l': ("look for what it is least likely to exercise while still being squarely inside the property statement: re-read the statement and the "
+        "'must hold for' text clause by clause and pick the clause that a harness author would most probably have implemented weakly or "
+        "forgotten - the LAST sentence, a parenthetical, an 'as well', an 'only', an 'until', a 'for each', a stated exception to a rule, or "
+        "one of the enumerated cases of the quantifier that is least typical - and break exactly that clause, leaving the headline "
+        "behaviour intact. Prefer a mechanism that depends on the HISTORY of the object (it manifests only if the object was earlier in some "
+        "particular state: was full and drained, had failed and recovered, had been idle, had been resized, had seen a given message kind) or "
+        "on a NON-DEFAULT configuration reached through the library's public constructors / builders."),
   'k': ("look for what it is least likely to exercise while still being squarely inside the property statement: make the change in a "
         "SHARED, LOWER-LEVEL or NEIGHBOURING module that this property's behaviour depends on only indirectly (for example "
         "scales/observable.py, scales/asynchronous.py, scales/message.py, scales/sink.py, scales/timer_queue.py, scales/varz.py, "
